@@ -331,7 +331,8 @@ func runC03(ctx *common.Ctx) error {
 		for _, o := range cr.Ops {
 			sc.Ops = append(sc.Ops, o.String())
 		}
-		if len(lines) < maxCases && !cr.Crashed && len(cr.Steps) > 0 {
+		// scenarios on which the property oracle already failed are reported by the oracle; the model is compared on the others
+		if len(lines) < maxCases && !cr.Crashed && cr.Fail == nil && len(cr.Steps) > 0 {
 			lines = append(lines, coqCase(sc.ID, cr.Steps))
 		}
 		res.Count(fmt.Sprintf("sessions:%d", cr.K))
